@@ -4,9 +4,15 @@
   interpreter.  The translator is syntax-directed (one Python AST node = one
   constructor below); every construct outside this subset makes it raise.
 
-  Function calls between the translated functions are resolved through the
-  open-recursion parameter `call`, which `callFn` closes with fuel (one unit
-  per Python-level call), so everything else is structural recursion on syntax.
+  The interpreter is in two stages.  `evalE`/`execS`/`execL` (structural
+  recursion on syntax) turn a function body into an *interaction tree*: pure
+  computation is done on the spot, while every effect that depends on data the
+  body does not own — a call of another translated function, `map(f, xs)`,
+  a generator expression, Python's `sorted` — is a node (`callK`, `mapK`,
+  `genK`, `sortK`) carrying the continuation.  `run` answers the nodes, and
+  `callFn` closes the recursion with fuel (one unit per Python-level call).
+  The staging is what makes the proofs cheap: the kernel evaluates a body up
+  to the next node by `rfl`, and the node exposes the call to reason about.
 -/
 import AdaptixModel.Layout.DefaultBase
 
@@ -41,12 +47,18 @@ inductive Expr where
   | genPairs (elt : Expr) (k v : String) (iter : Expr)   -- (elt for k, v in iter)
   deriving Repr, Inhabited
 
+/-- the exception classes the translated functions raise or catch (no subclass
+    relation among them; the translator refuses any other class) -/
+inductive Exc where
+  | keyError | typeError | indexError | cannotBeRendered
+  deriving Repr, DecidableEq, Inhabited
+
 inductive Stmt where
   | ret (e : Expr)
   | assign (x : String) (e : Expr)
-  | raise (exc : String)
+  | raise (exc : Exc)
   | ifThen (c : Expr) (body orelse : List Stmt)
-  | tryExcept (body : List Stmt) (excs : List String) (handler : List Stmt)
+  | tryExcept (body : List Stmt) (excs : List Exc) (handler : List Stmt)
   deriving Repr, Inhabited
 
 structure FuncDef where
@@ -66,7 +78,7 @@ inductive PV where
 
 inductive Res (α : Type) where
   | ok (a : α)
-  | exc (cls : String)       -- a Python exception of that class propagates
+  | exc (cls : Exc)          -- a Python exception of that class propagates
   | stuck (msg : String)     -- outside the modelled subset / out of fuel
   deriving Repr, Inhabited
 
@@ -88,25 +100,18 @@ structure Ctx where
   builtinToName : List (Val × List Char)         -- BUILTIN_TO_NAME.items()
   nameToBuiltin : List (List Char × Val)         -- NAME_TO_BUILTIN.items()
   clsToFactoryLiteral : List (Val × List Char)   -- _CLS_TO_FACTORY_LITERAL.items()
-  /-- Python's `sorted` on the elements of a set: `none` = TypeError.  Not
-      modelled; the theorems hold for every oracle returning a permutation. -/
-  sorted : List Val → Option (List Val)
 
 abbrev Env := List (String × PV)
 
 def Txt.asLit : Txt → Option (List Char)
   | [] => some []
   | .ch c :: t => (Txt.asLit t).map (c :: ·)
-  | .reprOf _ :: _ => Option.none
+  | _ :: _ => Option.none
 
 /-- dict lookup `table[v]` by `==`/hash against flat keys -/
 def lookupFlat {α : Type} (v : Val) : List (Val × α) → Option α
   | [] => Option.none
   | (k, a) :: rest => if pyEqFlat v k then some a else lookupFlat v rest
-
-def lookupName (n : List Char) : List (List Char × Val) → Option Val
-  | [] => Option.none
-  | (k, a) :: rest => if k == n then some a else lookupName n rest
 
 def pvBool (b : Bool) : PV := .v (.bool b)
 
@@ -138,10 +143,12 @@ def allTxt : List PV → Option (List Txt)
   | .txt t :: rest => (allTxt rest).map (t :: ·)
   | _ :: _ => Option.none
 
-def joinWith (sep : Txt) : List Txt → Txt
-  | [] => []
-  | [t] => t
-  | t :: ts => t ++ sep ++ joinWith sep ts
+/-- the text of a `str` value; a non-`str` yields a piece no expression renders
+    to (Python raises `TypeError` in `join` / rejects it in an f-string; the
+    model keeps going with text that can never be a literal). -/
+def PV.toTxt : PV → Txt
+  | .txt t => t
+  | _ => [Piece.junk]
 
 def mapRes {α β : Type} (f : α → Res β) : List α → Res (List β)
   | [] => .ok []
@@ -164,47 +171,100 @@ def pvIs (a b : PV) : Res Bool :=
   | .txt _, .v .none | .v .none, .txt _ => .ok false
   | _, _ => .stuck "is"
 
-def primCall (cx : Ctx) (call : String → List PV → Res PV) (f : String) (args : List PV) : Res PV :=
+/-! ## Interaction trees -/
+
+inductive Out where
+  | pv (p : PV)
+  | pvs (ps : List PV)
+  | next (env : Env)     -- statement finished normally
+  | ret (p : PV)         -- `return p`
+  deriving Inhabited
+
+inductive Tree where
+  | done (r : Res Out)
+  | callK (f : String) (args : List PV) (k : Res PV → Tree)          -- f(*args)
+  | mapK (g : String) (xs : List PV) (k : Res (List PV) → Tree)      -- [g(x) for x in xs], stopping at the first exception
+  | sortK (xs : List Val) (k : Option (List Val) → Tree)             -- sorted(xs); none = TypeError
+  | genK (f : PV → Tree) (xs : List PV) (k : Res (List PV) → Tree)   -- [f(x) for x in xs]
+  | tblK (table : String) (get : Bool) (key : PV) (k : Res PV → Tree) -- TABLE[key] / TABLE.get(key)
+  | cmpK (op : CmpOp) (a b : PV) (k : Res PV → Tree)                 -- a is b / a in b / a == b
+  deriving Inhabited
+
+def Tree.bind : Tree → (Out → Tree) → Tree
+  | .done (.ok o), g => g o
+  | .done (.exc c), _ => .done (.exc c)
+  | .done (.stuck m), _ => .done (.stuck m)
+  | .callK f a k, g => .callK f a (fun r => (k r).bind g)
+  | .mapK f a k, g => .mapK f a (fun r => (k r).bind g)
+  | .sortK a k, g => .sortK a (fun r => (k r).bind g)
+  | .genK f a k, g => .genK f a (fun r => (k r).bind g)
+  | .tblK t b a k, g => .tblK t b a (fun r => (k r).bind g)
+  | .cmpK o a b k, g => .cmpK o a b (fun r => (k r).bind g)
+
+/-- `try: t  except excs: handler` -/
+def Tree.catch : Tree → List Exc → Tree → Tree
+  | .done (.exc c), excs, handler => if excs.contains c then handler else .done (.exc c)
+  | .done r, _, _ => .done r
+  | .callK f a k, excs, handler => .callK f a (fun r => (k r).catch excs handler)
+  | .mapK f a k, excs, handler => .mapK f a (fun r => (k r).catch excs handler)
+  | .sortK a k, excs, handler => .sortK a (fun r => (k r).catch excs handler)
+  | .genK f a k, excs, handler => .genK f a (fun r => (k r).catch excs handler)
+  | .tblK t b a k, excs, handler => .tblK t b a (fun r => (k r).catch excs handler)
+  | .cmpK o a b k, excs, handler => .cmpK o a b (fun r => (k r).catch excs handler)
+
+def stuckT (m : String) : Tree := .done (.stuck m)
+def okPV (p : PV) : Tree := .done (.ok (.pv p))
+
+def Tree.bindPV (t : Tree) (g : PV → Tree) : Tree :=
+  t.bind fun o => match o with
+    | .pv p => g p
+    | _ => stuckT "expected a value"
+
+def Tree.bindPVs (t : Tree) (g : List PV → Tree) : Tree :=
+  t.bind fun o => match o with
+    | .pvs ps => g ps
+    | _ => stuckT "expected values"
+
+def ofRes (r : Res PV) : Tree :=
+  match r with
+  | .ok p => okPV p
+  | .exc c => .done (.exc c)
+  | .stuck m => .done (.stuck m)
+
+def primCall (f : String) (args : List PV) : Tree :=
   match f, args with
-  | "type", [.v x] => .ok (.v x.typeOf)
-  | "repr", [.v x] => .ok (.txt [Piece.reprOf x])
-  | "len", [.v (.tuple xs)] => .ok (.v (.int xs.length))
-  | "len", [.v (.list xs)] => .ok (.v (.int xs.length))
+  | "type", [.v x] => okPV (.v x.typeOf)
+  | "repr", [.v x] => okPV (.txt [Piece.reprOf x])
+  | "len", [.v (.tuple xs)] => okPV (.v (.int xs.length))
+  | "len", [.v (.list xs)] => okPV (.v (.int xs.length))
   | "sorted", [.v (.set xs)] | "sorted", [.v (.frozenset xs)] =>
-    match cx.sorted xs with
-    | some ys => .ok (.v (.list ys))
-    | Option.none => .exc "TypeError"
+    .sortK xs fun r => match r with
+      | some ys => okPV (.v (.list ys))
+      | Option.none => .done (.exc .typeError)
   | "map", [.fn g, it] =>
     match iterOf it with
-    | .ok xs =>
-      match mapRes (fun x => call g [x]) xs with
-      | .ok ys => .ok (.seq ys)
-      | .exc c => .exc c
-      | .stuck m => .stuck m
-    | .exc c => .exc c
-    | .stuck m => .stuck m
-  | _, _ => .stuck ("builtin call " ++ f)
+    | .ok xs => .mapK g xs fun r => match r with
+      | .ok ys => okPV (.seq ys)
+      | .exc c => .done (.exc c)
+      | .stuck m => .done (.stuck m)
+    | .exc c => .done (.exc c)
+    | .stuck m => .done (.stuck m)
+  | _, _ => stuckT ("builtin call " ++ f)
 
-def methCall (cx : Ctx) (recv : PV) (m : String) (args : List PV) : Res PV :=
+def methCall (recv : PV) (m : String) (args : List PV) : Tree :=
   match recv, m, args with
-  | .glob "math", "isinf", [.v (.float h)] => .ok (pvBool (h == "inf" || h == "-inf"))
-  | .glob "math", "isnan", [.v (.float h)] => .ok (pvBool (h == "nan"))
+  | .glob "math", "isinf", [.v (.float .inf)] | .glob "math", "isinf", [.v (.float .negInf)] => okPV (pvBool true)
+  | .glob "math", "isinf", [.v (.float _)] => okPV (pvBool false)
+  | .glob "math", "isnan", [.v (.float .nan)] => okPV (pvBool true)
+  | .glob "math", "isnan", [.v (.float _)] => okPV (pvBool false)
   | .txt sep, "join", [it] =>
     match iterOf it with
-    | .ok xs =>
-      match allTxt xs with
-      | some ts => .ok (.txt (joinWith sep ts))
-      | Option.none => .exc "TypeError"
-    | .exc c => .exc c
-    | .stuck msg => .stuck msg
-  | .v (.dict kvs), "items", [] => .ok (.seq (kvs.map fun kv => .v (.tuple [kv.1, kv.2])))
-  | .glob "_CLS_TO_FACTORY_LITERAL", "get", [.v x] =>
-    if x.hashable then
-      match lookupFlat x cx.clsToFactoryLiteral with
-      | some cs => .ok (.txt (lit cs))
-      | Option.none => .ok (.v .none)
-    else .exc "TypeError"
-  | _, _, _ => .stuck ("method call " ++ m)
+    | .ok xs => okPV (.txt (joinWith sep (xs.map PV.toTxt)))
+    | .exc c => .done (.exc c)
+    | .stuck msg => .done (.stuck msg)
+  | .v (.dict kvs), "items", [] => okPV (.seq (kvs.map fun kv => .v (.tuple [kv.1, kv.2])))
+  | .glob t, "get", [key] => .tblK t true key ofRes
+  | _, _, _ => stuckT ("method call " ++ m)
 
 def getAttr (p : PV) (a : String) : Res PV :=
   match p, a with
@@ -216,35 +276,54 @@ def getAttr (p : PV) (a : String) : Res PV :=
   | .v (.range _ _ x), "step" => .ok (.v (.int x))
   | _, _ => .stuck ("attribute " ++ a)
 
-def getIndex (cx : Ctx) (p i : PV) : Res PV :=
-  match p, i with
-  | .glob "BUILTIN_TO_NAME", .v x =>
+/-- `TABLE[key]` (`get = false`) / `TABLE.get(key)` (`get = true`) on the
+    module-level dicts: lookup by `==`/hash; unhashable key → TypeError. -/
+def tableLookup (cx : Ctx) (table : String) (get : Bool) (key : PV) : Res PV :=
+  match table, key with
+  | "BUILTIN_TO_NAME", .v x =>
     if x.hashable then
       match lookupFlat x cx.builtinToName with
       | some cs => .ok (.txt (lit cs))
-      | Option.none => .exc "KeyError"
-    else .exc "TypeError"
-  | .glob "NAME_TO_BUILTIN", .txt t =>
+      | Option.none => if get then .ok (.v .none) else .exc .keyError
+    else .exc .typeError
+  | "_CLS_TO_FACTORY_LITERAL", .v x =>
+    if x.hashable then
+      match lookupFlat x cx.clsToFactoryLiteral with
+      | some cs => .ok (.txt (lit cs))
+      | Option.none => if get then .ok (.v .none) else .exc .keyError
+    else .exc .typeError
+  | "NAME_TO_BUILTIN", .txt t =>
     match t.asLit with
     | some cs =>
       match lookupName cs cx.nameToBuiltin with
       | some x => .ok (.v x)
-      | Option.none => .exc "KeyError"
-    | Option.none => .exc "KeyError"
+      | Option.none => if get then .ok (.v .none) else .exc .keyError
+    | Option.none => if get then .ok (.v .none) else .exc .keyError
+  | _, _ => .stuck "table lookup"
+
+def getIndex (p i : PV) : Tree :=
+  match p, i with
+  | .glob t, key => .tblK t false key ofRes
   | .txt t, .v (.int k) =>
     match t[k.toNat]? with
-    | some pc => if k < 0 then .stuck "negative index" else .ok (.txt [pc])
-    | Option.none => .exc "IndexError"
+    | some pc => if k < 0 then stuckT "negative index" else okPV (.txt [pc])
+    | Option.none => .done (.exc .indexError)
   | .v (.tuple xs), .v (.int k) | .v (.list xs), .v (.int k) =>
     match xs[k.toNat]? with
-    | some x => if k < 0 then .stuck "negative index" else .ok (.v x)
-    | Option.none => .exc "IndexError"
-  | _, _ => .stuck "subscript"
+    | some x => if k < 0 then stuckT "negative index" else okPV (.v x)
+    | Option.none => .done (.exc .indexError)
+  | _, _ => stuckT "subscript"
 
 def doCmp (op : CmpOp) (a b : PV) : Res PV :=
   match op with
-  | .is => do let r ← pvIs a b; pure (pvBool r)
-  | .isNot => do let r ← pvIs a b; pure (pvBool !r)
+  | .is => match pvIs a b with
+    | .ok r => .ok (pvBool r)
+    | .exc c => .exc c
+    | .stuck m => .stuck m
+  | .isNot => match pvIs a b with
+    | .ok r => .ok (pvBool !r)
+    | .exc c => .exc c
+    | .stuck m => .stuck m
   | .isIn =>
     -- `x in (t1, t2, …)`: only identity-determined elements (type objects)
     match b with
@@ -265,176 +344,120 @@ def doAdd (a b : PV) : Res PV :=
   | _, _ => .stuck "+"
 
 mutual
-def evalE (cx : Ctx) (call : String → List PV → Res PV) (env : Env) : Expr → Res PV
+def evalE (cx : Ctx) (env : Env) : Expr → Tree
   | .loc x => match env.lookup x with
-    | some p => .ok p
-    | Option.none => .stuck ("unbound local " ++ x)
-  | .fnRef f => .ok (.fn f)
-  | .glob g => .ok (.glob g)
-  | .builtinName n => .ok (.v (.builtin n))
-  | .str cs => .ok (.txt (lit cs))
-  | .noneLit => .ok (.v .none)
-  | .int n => .ok (.v (.int n))
+    | some p => okPV p
+    | Option.none => stuckT ("unbound local " ++ x)
+  | .fnRef f => okPV (.fn f)
+  | .glob g => okPV (.glob g)
+  | .builtinName n => okPV (.v (.builtin n))
+  | .str cs => okPV (.txt (lit cs))
+  | .noneLit => okPV (.v .none)
+  | .int n => okPV (.v (.int n))
   | .tuple es =>
-    match evalEs cx call env es with
-    | .ok ps => match allVals ps with
-      | some vs => .ok (.v (.tuple vs))
-      | Option.none => .stuck "tuple of non-objects"
-    | .exc c => .exc c
-    | .stuck m => .stuck m
+    (evalEs cx env es).bindPVs fun ps => match allVals ps with
+      | some vs => okPV (.v (.tuple vs))
+      | Option.none => stuckT "tuple of non-objects"
   | .callFn f args =>
-    match evalEs cx call env args with
-    | .ok ps => call f ps
-    | .exc c => .exc c
-    | .stuck m => .stuck m
+    (evalEs cx env args).bindPVs fun ps => .callK f ps ofRes
   | .callBuiltin f args =>
-    match evalEs cx call env args with
-    | .ok ps => primCall cx call f ps
-    | .exc c => .exc c
-    | .stuck m => .stuck m
+    (evalEs cx env args).bindPVs fun ps => primCall f ps
   | .callMeth r m args =>
-    match evalE cx call env r with
-    | .ok rp =>
-      match evalEs cx call env args with
-      | .ok ps => methCall cx rp m ps
-      | .exc c => .exc c
-      | .stuck msg => .stuck msg
-    | .exc c => .exc c
-    | .stuck msg => .stuck msg
+    (evalE cx env r).bindPV fun rp => (evalEs cx env args).bindPVs fun ps => methCall rp m ps
   | .attr e a =>
-    match evalE cx call env e with
-    | .ok p => getAttr p a
-    | .exc c => .exc c
-    | .stuck m => .stuck m
+    (evalE cx env e).bindPV fun p => ofRes (getAttr p a)
   | .index e i =>
-    match evalE cx call env e with
-    | .ok p =>
-      match evalE cx call env i with
-      | .ok q => getIndex cx p q
-      | .exc c => .exc c
-      | .stuck m => .stuck m
-    | .exc c => .exc c
-    | .stuck m => .stuck m
+    (evalE cx env e).bindPV fun p => (evalE cx env i).bindPV fun q => getIndex p q
   | .cmp op a b =>
-    match evalE cx call env a with
-    | .ok p =>
-      match evalE cx call env b with
-      | .ok q => doCmp op p q
-      | .exc c => .exc c
-      | .stuck m => .stuck m
-    | .exc c => .exc c
-    | .stuck m => .stuck m
+    (evalE cx env a).bindPV fun p => (evalE cx env b).bindPV fun q => .cmpK op p q ofRes
   | .or a b =>
-    match evalE cx call env a with
-    | .ok p =>
-      match truthy p with
-      | .ok true => .ok p
-      | .ok false => evalE cx call env b
-      | .exc c => .exc c
-      | .stuck m => .stuck m
-    | .exc c => .exc c
-    | .stuck m => .stuck m
+    (evalE cx env a).bindPV fun p => match truthy p with
+      | .ok true => okPV p
+      | .ok false => evalE cx env b
+      | .exc c => .done (.exc c)
+      | .stuck m => .done (.stuck m)
   | .add a b =>
-    match evalE cx call env a with
-    | .ok p =>
-      match evalE cx call env b with
-      | .ok q => doAdd p q
-      | .exc c => .exc c
-      | .stuck m => .stuck m
-    | .exc c => .exc c
-    | .stuck m => .stuck m
+    (evalE cx env a).bindPV fun p => (evalE cx env b).bindPV fun q => ofRes (doAdd p q)
   | .fstr parts =>
-    match evalEs cx call env parts with
-    | .ok ps => match allTxt ps with
-      | some ts => .ok (.txt ts.flatten)
-      | Option.none => .stuck "f-string part is not a str"
-    | .exc c => .exc c
-    | .stuck m => .stuck m
+    (evalEs cx env parts).bindPVs fun ps => okPV (.txt (ps.map PV.toTxt).flatten)
   | .genPairs elt k v it =>
-    match evalE cx call env it with
-    | .ok s =>
-      match iterOf s with
+    (evalE cx env it).bindPV fun s => match iterOf s with
       | .ok xs =>
-        match mapRes (fun x => match x with
-            | .v (.tuple [a, b]) => evalE cx call ((v, .v b) :: (k, .v a) :: env) elt
-            | _ => .stuck "unpacking") xs with
-        | .ok ys => .ok (.seq ys)
-        | .exc c => .exc c
-        | .stuck m => .stuck m
-      | .exc c => .exc c
-      | .stuck m => .stuck m
-    | .exc c => .exc c
-    | .stuck m => .stuck m
-def evalEs (cx : Ctx) (call : String → List PV → Res PV) (env : Env) : List Expr → Res (List PV)
-  | [] => .ok []
+        .genK (fun x => match x with
+            | .v (.tuple [a, b]) => evalE cx ((v, .v b) :: (k, .v a) :: env) elt
+            | _ => stuckT "unpacking") xs
+          fun r => match r with
+            | .ok ys => okPV (.seq ys)
+            | .exc c => .done (.exc c)
+            | .stuck m => .done (.stuck m)
+      | .exc c => .done (.exc c)
+      | .stuck m => .done (.stuck m)
+def evalEs (cx : Ctx) (env : Env) : List Expr → Tree
+  | [] => .done (.ok (.pvs []))
   | e :: es =>
-    match evalE cx call env e with
-    | .ok p =>
-      match evalEs cx call env es with
-      | .ok ps => .ok (p :: ps)
-      | .exc c => .exc c
-      | .stuck m => .stuck m
-    | .exc c => .exc c
-    | .stuck m => .stuck m
+    (evalE cx env e).bindPV fun p => (evalEs cx env es).bindPVs fun ps => .done (.ok (.pvs (p :: ps)))
 end
-
-inductive Flow where
-  | next (env : Env)
-  | ret (p : PV)
-  deriving Inhabited
 
 mutual
-def execS (cx : Ctx) (call : String → List PV → Res PV) (env : Env) : Stmt → Res Flow
-  | .ret e =>
-    match evalE cx call env e with
-    | .ok p => .ok (.ret p)
-    | .exc c => .exc c
-    | .stuck m => .stuck m
-  | .assign x e =>
-    match evalE cx call env e with
-    | .ok p => .ok (.next ((x, p) :: env))
-    | .exc c => .exc c
-    | .stuck m => .stuck m
-  | .raise c => .exc c
+def execS (cx : Ctx) (env : Env) : Stmt → Tree
+  | .ret e => (evalE cx env e).bindPV fun p => .done (.ok (.ret p))
+  | .assign x e => (evalE cx env e).bindPV fun p => .done (.ok (.next ((x, p) :: env)))
+  | .raise c => .done (.exc c)
   | .ifThen c body orelse =>
-    match evalE cx call env c with
-    | .ok p =>
-      match truthy p with
-      | .ok true => execL cx call env body
-      | .ok false => execL cx call env orelse
-      | .exc c => .exc c
-      | .stuck m => .stuck m
-    | .exc c => .exc c
-    | .stuck m => .stuck m
+    (evalE cx env c).bindPV fun p => match truthy p with
+      | .ok true => execL cx env body
+      | .ok false => execL cx env orelse
+      | .exc c => .done (.exc c)
+      | .stuck m => .done (.stuck m)
   | .tryExcept body excs handler =>
-    match execL cx call env body with
-    | .exc c => if excs.contains c then execL cx call env handler else .exc c
-    | r => r
-def execL (cx : Ctx) (call : String → List PV → Res PV) (env : Env) : List Stmt → Res Flow
-  | [] => .ok (.next env)
+    (execL cx env body).catch excs (execL cx env handler)
+def execL (cx : Ctx) (env : Env) : List Stmt → Tree
+  | [] => .done (.ok (.next env))
   | s :: ss =>
-    match execS cx call env s with
-    | .ok (.next env') => execL cx call env' ss
-    | r => r
+    (execS cx env s).bind fun o => match o with
+      | .next env' => execL cx env' ss
+      | .ret p => .done (.ok (.ret p))
+      | _ => stuckT "statement result"
 end
+
+def outPV : Res Out → Res PV
+  | .ok (.pv p) => .ok p
+  | .ok _ => .stuck "expected a value"
+  | .exc c => .exc c
+  | .stuck m => .stuck m
+
+/-- answer the nodes of a tree: `call` runs another translated function,
+    `so` is Python's `sorted`. -/
+def run (cx : Ctx) (so : List Val → Option (List Val)) (call : String → List PV → Res PV) : Tree → Res Out
+  | .done r => r
+  | .callK f a k => run cx so call (k (call f a))
+  | .mapK g xs k => run cx so call (k (mapRes (fun x => call g [x]) xs))
+  | .sortK xs k => run cx so call (k (so xs))
+  | .genK f xs k => run cx so call (k (mapRes (fun x => outPV (run cx so call (f x))) xs))
+  | .tblK t g key k => run cx so call (k (tableLookup cx t g key))
+  | .cmpK op a b k => run cx so call (k (doCmp op a b))
 
 def findFunc (f : String) : List FuncDef → Option FuncDef
   | [] => Option.none
   | d :: ds => if d.name == f then some d else findFunc f ds
 
+/-- what a function call yields from the outcome of its body -/
+def finish : Res Out → Res PV
+  | .ok (.ret p) => .ok p
+  | .ok (.next _) => .ok (.v .none)
+  | .ok _ => .stuck "body result"
+  | .exc c => .exc c
+  | .stuck m => .stuck m
+
 /-- Python-level call of a translated function; one unit of fuel per call. -/
-def callFn (cx : Ctx) : Nat → String → List PV → Res PV
+def callFn (cx : Ctx) (so : List Val → Option (List Val)) : Nat → String → List PV → Res PV
   | 0, _, _ => .stuck "out of fuel"
   | fuel + 1, f, args =>
     match findFunc f cx.funcs with
     | Option.none => .stuck ("unknown function " ++ f)
     | some d =>
       if d.params.length != args.length then .stuck "arity" else
-      match execL cx (callFn cx fuel) (d.params.zip args).reverse d.body with
-      | .ok (.ret p) => .ok p
-      | .ok (.next _) => .ok (.v .none)
-      | .exc c => .exc c
-      | .stuck m => .stuck m
+      finish (run cx so (callFn cx so fuel) (execL cx (d.params.zip args).reverse d.body))
 
 /-! nesting depth of a value: the fuel a rendering needs is linear in it -/
 mutual
